@@ -7,6 +7,8 @@ pub uninterp spec fn fmt_sink_failed(f: &std::fmt::Formatter) -> bool;
 pub assume_specification<'a> [std::fmt::Formatter::<'a>::write_str] (f: &mut std::fmt::Formatter<'a>, s: &str) -> (r: std::fmt::Result)
     ensures r is Err ==> fmt_sink_failed(final(f));
 pub assume_specification<'a> [std::str::from_utf8] (v: &'a [u8]) -> (r: std::result::Result<&'a str, std::str::Utf8Error>);
+pub assume_specification [std::str::Utf8Error::error_len] (e: &std::str::Utf8Error) -> (r: std::option::Option<usize>);
+pub assume_specification [std::str::Utf8Error::valid_up_to] (e: &std::str::Utf8Error) -> (r: usize);
 pub assume_specification<'a> [std::string::String::from_utf8_lossy] (v: &'a [u8]) -> (r: std::borrow::Cow<'a, str>);
 }
 """
